@@ -21,6 +21,7 @@ type CaseC08 struct {
 	Pointer int        `json:"pointer"`
 	// negative variant: "", "command", "encrypted", "table-id", "identifier"
 	Negative string `json:"negative"`
+	Filler   int    `json:"filler,omitempty"` // what the bytes between pointer_field and section are (see c08Input)
 	NegValue int    `json:"neg_value"`
 	NegLen   int    `json:"neg_len,omitempty"` // short negatives: body bytes of the foreign section / private bytes behind the foreign identifier
 }
@@ -29,7 +30,8 @@ func genC08(t *rapid.T) CaseC08 {
 	c := CaseC08{Splice: genSplice(t, true)}
 	// alignment_stuffing bytes between the descriptor loop and CRC_32 are part of the syntax (a clear section may carry them too)
 	c.Splice.Stuffing = rapid.SampledFrom([]int{0, 0, 0, 1, 2, 3, 4, 7, 8}).Draw(t, "alignment-stuffing")
-	c.Pointer = rapid.SampledFrom([]int{0, 0, 0, 0, 1, 2, 5, 20, 183, 254, 255}).Draw(t, "pointer")
+	c.Pointer = rapid.SampledFrom([]int{0, 0, 0, 0, 1, 2, 5, 20, 183, 254, 255, 252, 252, 2, 0xC6}).Draw(t, "pointer")
+	c.Filler = rapid.IntRange(0, 3).Draw(t, "filler")
 	if rapid.IntRange(0, 5).Draw(t, "negative") == 0 {
 		c.Negative = rapid.SampledFrom([]string{"command", "encrypted", "table-id", "identifier", "identifier-short", "table-id-short"}).Draw(t, "neg-kind")
 		switch c.Negative {
@@ -47,9 +49,33 @@ func genC08(t *rapid.T) CaseC08 {
 	return c
 }
 
+// c08Input is pointer_field ++ the bytes it skips ++ section. The skipped bytes belong to whatever came before
+// in the payload (the end of another section): 0 all 0xFF, 1 a byte pattern, 2 the end of another
+// splice_info_section, 3 the bytes a section would have behind its table_id (so that, with a pointer_field whose
+// value is a table id, the payload as a whole looks like a section that starts without a pointer_field).
 func c08Input(c CaseC08, sec []byte) []byte {
 	in := []byte{byte(c.Pointer)}
-	in = append(in, bytes.Repeat([]byte{0xFF}, c.Pointer)...)
+	var src []byte
+	switch c.Filler {
+	case 1:
+		for i := 0; i < c.Pointer; i++ {
+			src = append(src, byte(i*37+c.Pointer))
+		}
+	case 2, 3:
+		other := (&ref.Splice{TableID: 0xFC, Tier: 0xFFF, Cmd: 0x06, TSHasPTS: true, TSPTS: 0x12345678, Descs: []ref.SpliceDesc{
+			{Foreign: true, FTag: 0x01, FBody: bytes.Repeat([]byte{0x5A}, 40)}}}).Encode()
+		for len(src) < c.Pointer+1 {
+			src = append(src, other...)
+		}
+		if c.Filler == 2 {
+			src = src[len(src)-c.Pointer:]
+		} else {
+			src = src[1 : 1+c.Pointer]
+		}
+	default:
+		src = bytes.Repeat([]byte{0xFF}, c.Pointer)
+	}
+	in = append(in, src[:c.Pointer]...)
 	return append(in, sec...)
 }
 
@@ -145,7 +171,7 @@ func c08Negative(c CaseC08, x *hx.Ctx) *hx.Failure {
 var propC08 = hx.Register(hx.Prop[CaseC08]{ID: "C08", Gen: genC08, Check: checkC08})
 
 func c08Rule() {
-	hx.Rec("C08").SetRule("cases: a reference-model splice_info_section over the supported syntax: splice_null / time_signal with time / splice_insert x {cancelled, program or component mode, immediate or timed, with/without break_duration, 0..4 components with/without time}; pts_adjustment, pts_time, durations and offsets from 33-/40-bit boundary sets; any tier, cw_index; protocol_version 0; real or 0xFFF splice_command_length; 0..5 descriptors: segmentation (cancelled or full, all flag combinations, 0..3 components, 40-bit duration, UPID of 0..40 bytes or MID list of 0..3 entries, named or arbitrary type, sub-segment fields for 0x34/0x36) and foreign descriptors, 0..8 alignment_stuffing bytes before CRC_32, one time in five a sibling of an earlier descriptor (same type, event id and segment numbers, differing in one other field or in none); pointer_field 0..255. One case in six is a negative: unsupported command type, encrypted bit, table id != 0xFC (also as a complete section of only 7..17 bytes), or a segmentation descriptor identifier differing from CUEI in one bit (also a tag-0x02 descriptor of another owner with 0..4 private bytes). Oracle: every getter equals the model where the syntax carries the field; PTS() = (pts_time + pts_adjustment) mod 2^33; descriptors refer back to their signal; negatives map to their sentinel errors. Non-trivial: splice_insert other than the plain program/timed form, or a 33/40-bit field with a bit >= 32 set, or >= 2 descriptors of different shapes, or a negative.",
+	hx.Rec("C08").SetRule("cases: a reference-model splice_info_section over the supported syntax: splice_null / time_signal with time / splice_insert x {cancelled, program or component mode, immediate or timed, with/without break_duration, 0..4 components with/without time}; pts_adjustment, pts_time, durations and offsets from 33-/40-bit boundary sets; any tier, cw_index; protocol_version 0; real or 0xFFF splice_command_length; 0..5 descriptors: segmentation (cancelled or full, all flag combinations, 0..3 components, 40-bit duration, UPID of 0..40 bytes or MID list of 0..3 entries, named or arbitrary type, sub-segment fields for 0x34/0x36) and foreign descriptors, 0..8 alignment_stuffing bytes before CRC_32, one time in five a sibling of an earlier descriptor (same type, event id and segment numbers, differing in one other field or in none); pointer_field 0..255 (incl. values that are table ids) over 0xFF filler, a byte pattern, the end of another section or bytes that look like a section behind its table_id. One case in six is a negative: unsupported command type, encrypted bit, table id != 0xFC (also as a complete section of only 7..17 bytes), or a segmentation descriptor identifier differing from CUEI in one bit (also a tag-0x02 descriptor of another owner with 0..4 private bytes). Oracle: every getter equals the model where the syntax carries the field; PTS() = (pts_time + pts_adjustment) mod 2^33; descriptors refer back to their signal; negatives map to their sentinel errors. Non-trivial: splice_insert other than the plain program/timed form, or a 33/40-bit field with a bit >= 32 set, or >= 2 descriptors of different shapes, or a negative.",
 		"time_signal / program splice_insert with time_specified_flag 0 are outside the statement's supported list and are not generated as positives",
 		"section_length up to the 12-bit limit (long UPIDs push it beyond 1023)")
 }
